@@ -364,4 +364,4 @@ func runC05(c *ctx) {
 	_ = ai.WinThreshold
 }
 
-const c05ThoroughScale = 4
+const c05ThoroughScale = 10
